@@ -359,4 +359,44 @@ def r5_calls_keep_their_rule(a, tier):
     return calls_keep_their_rule(a, 'C11.R5')
 
 
-RULES = [r1_placement, r2_folding, r3_generated, r4_accepted_names_unchanged, r5_calls_keep_their_rule]
+def r6_table_complete(a, tier):
+    from ..minieval import Unsupported
+    from ..modelinterp import Bound, Hook, ModelInterp, Stub
+    rep = RuleReport(
+        'C11.R6',
+        'every declared keyword reaches the table: Grammar.__init__, interpreted on a stand-in configuration with the declared keywords '
+        '"if", "If", "end-if", "#else", ".data", "2nd", "x y" (a keyword is any non-empty text - quoted keywords need not be identifiers) '
+        'and an empty entry, ends with a keyword table that holds each non-empty one (folded under ignorecase) and hands the same table to '
+        'the configuration the parse contexts read',
+        floor=2,
+    )
+    G, PC = 'tatsu.peg.base.Grammar', 'tatsu.config.ParserConfig'
+    fn = a.ct.lookup(G, '__init__')
+    declared = ('if', 'If', 'end-if', '#else', '.data', '2nd', 'x y', '')
+    for ic in (False, True):
+        handed: dict = {}
+        cfg = Stub(PC, ignorecase=ic, keywords=(), name=None, source=None)
+        cfg._attrs['hard_override'] = Hook(lambda **k: cfg)
+        cfg._attrs['override'] = Hook(lambda **k: (handed.update(k), cfg)[1])
+        me = Stub(G, _resolve_name=Hook(lambda n: n or 'G'), initialize=Hook(lambda *x, **k: None), config=cfg)
+        it = ModelInterp(a, {'ParserConfig': Hook(lambda *x, **k: cfg, q=PC, new=Hook(lambda *x, **k: cfg))})
+        try:
+            it.call_bound(Bound(me, fn), ['G', ()], {'config': cfg, 'keywords': declared})
+        except Unsupported as e:
+            raise AnalysisError(f'C11.R6: cannot interpret Grammar.__init__: {e}') from e
+        table = me._attrs.get('keywords')
+        fold = (lambda k: k.upper()) if ic else (lambda k: k)
+        folded = set()
+        if isinstance(table, (tuple, list, set, frozenset)):
+            folded = {k.upper() if ic else k for k in table}
+        missing = sorted(k for k in declared if k and fold(k) not in folded)
+        same = handed.get('keywords') is not None and set(handed['keywords']) == set(table or ())
+        ok = not missing and same and '' not in (table or ())
+        rep.add({'ignorecase': ic, 'declared': list(declared), 'table': sorted(table) if table is not None else None, 'missing': missing, 'handed_to_the_configuration': same, 'ok': ok})
+        if not ok:
+            rep.fail(fn.qualname, f'table-complete:{ic}', f'with ignorecase={ic} the declared keywords {list(declared)} give the table {sorted(table) if table is not None else None}'
+                     + (f': {missing} are dropped, so an @name rule accepts them' if missing else ': the configuration of the parse contexts gets another table'), fn.loc)
+    return rep
+
+
+RULES = [r1_placement, r2_folding, r3_generated, r4_accepted_names_unchanged, r5_calls_keep_their_rule, r6_table_complete]
